@@ -40,3 +40,18 @@ class get_relative_direction:
     }
     raises = {"ValueError": f"{_STEP1} > 1 or {_STEP2} > 1 or ({_STEP1} == 0 and {_STEP2} != 0)"}
     props = ["C06"]
+
+
+@contract(F, "is_connection")
+class is_connection:
+    params = dict(edges=T.GridT("int", [None, 2, 2]), connection_list=T.GridT("bool", [2, None, None]))
+    lets = dict(n="edges.shape[0]", m="maze_of(connection_list)")
+    # every row is a unit lattice edge inside the grid (callers pass lattice edges)
+    requires = ["forall(lambda k: in_grid(m, edges[k, 0]) and in_grid(m, edges[k, 1]) and lat_adj(edges[k, 0], edges[k, 1]), (0, n))"]
+    ensures = {
+        "C13.is_connection.shape": "result.shape == (n,)",
+        # the batch edge test describes the same graph as the connection structure
+        "C13.is_connection": "forall(lambda k: result[k] == edge(m, edges[k, 0], edges[k, 1]), (0, n))",
+    }
+    result = lambda env: T.GridT("bool", [env["n"]])
+    props = ["C13", "C06"]
